@@ -4,6 +4,8 @@ package query
 //verif:pkg lib/query
 //verif:setup VerifC02ShapesSetup
 //verif:harness VerifC02UpdatedShapes mode=bv tier=quick split=4
+//verif:setup VerifC02OneColumnSetup
+//verif:harness VerifC02OneColumnFormats mode=bv tier=quick split=4
 
 import (
 	"github.com/mithrandie/csvq/lib/parser"
@@ -99,5 +101,66 @@ func VerifC02UpdatedShapes() {
 		}
 	}
 	verifAssert("no control files remain", verifFileList() == sh.file)
+	verifReach("end")
+}
+
+var verifC02OneCreate, verifC02OneInsert, verifC02OneSelect [4][]parser.Statement
+var verifC02OneFile = [4]string{"y.tsv", "y.ltsv", "y.json", "y.jsonl"}
+
+func VerifC02OneColumnSetup() {
+	for i, f := range verifC02OneFile {
+		verifC02OneCreate[i] = verifParse("create table `" + f + "` (c1);")
+		verifC02OneInsert[i] = verifParse("insert into `" + f + "` values ('k'), (@a), ('z'); commit;")
+		verifC02OneSelect[i] = verifParse("select c1 from `" + f + "`;")
+	}
+}
+
+// A table with a single column in TSV, LTSV, JSON and JSON Lines (a record is then a bare line or a
+// one-member object): three records, the middle one NULL, empty or one character, are written by
+// COMMIT and read back by a fresh process.
+func VerifC02OneColumnFormats() {
+	format := verifChoice("format", 4)
+	menu := []string{"\x00", "", "a", "1", " "}
+	ta := menu[verifChoice("cell", len(menu))]
+	var a value.Primary = value.NewNull()
+	if ta != "\x00" {
+		a = value.NewString(ta)
+	}
+	tx := verifNewTx()
+	tx.Flags.Quiet = true
+	proc := NewProcessor(tx)
+	verifVar(proc.ReferenceScope, "a", a)
+	_, err := proc.Execute(verifCtx(), verifC02OneCreate[format])
+	verifAssert("create table", err == nil)
+	_, err = proc.Execute(verifCtx(), verifC02OneInsert[format])
+	_ = proc.AutoRollback()
+	_ = proc.ReleaseResourcesWithErrors()
+	if err != nil {
+		verifAssert("a refused write leaves no table behind", !verifFileExists(verifC02OneFile[format]))
+		verifReach("refused")
+		return
+	}
+	tx2 := verifNewTx()
+	tx2.Flags.Quiet = true
+	proc2 := NewProcessor(tx2)
+	_, err = proc2.Execute(ContextForStoringResults(verifCtx()), verifC02OneSelect[format])
+	verifAssert("the written one-column table loads", err == nil && len(tx2.SelectedViews) == 1)
+	if err != nil || len(tx2.SelectedViews) != 1 {
+		return
+	}
+	v := tx2.SelectedViews[0]
+	verifAssert("the one-column table has its three records", v.RecordLen() == 3)
+	if v.RecordLen() == 3 {
+		p := v.RecordSet[1][0][0]
+		if value.IsNull(p) {
+			verifAssert("NULL or empty text reads back as NULL", ta == "\x00" || ta == "")
+		} else {
+			s, ok := p.(*value.String)
+			verifAssert("the cell reads back", ok && ((ta == "\x00" && s.Raw() == "") || s.Raw() == ta))
+		}
+		k, ok := v.RecordSet[0][0][0].(*value.String)
+		verifAssert("the first record reads back", ok && k.Raw() == "k")
+	}
+	verifObserve("records", int64(v.RecordLen()))
 	verifReach("end")
 }
